@@ -4,6 +4,7 @@ import GtfsVerif.Gen.FileTable
 import GtfsVerif.Lemmas.CsvRT
 import GtfsVerif.Lemmas.Decimal
 import GtfsVerif.Lemmas.Float
+import GtfsVerif.Lemmas.FloatUnique
 /-! # C01 — static parse transcribes every valid row faithfully, whatever the presentation
 
 Model: `Gtfs.Csv.readFile` (byte-level reader incl. BOM), `Gtfs.Static.parse` and the ten row
@@ -606,6 +607,17 @@ theorem C01_float_within_half_ulp (d : Float.Dec) (b : Nat) (v : Float.Bin) (hm 
       (Float.cmpDecBin d.mant d.exp10 (2 * v.mant - 1) (v.exp2 - 1) = .gt ∨
         (Float.cmpDecBin d.mant d.exp10 (2 * v.mant - 1) (v.exp2 - 1) = .eq ∧ v.mant % 2 = 0))) :=
   Float.nearest_window d b v hm hr1 hr2 hd h
+
+/-- **the certificate determines the answer**: for a decimal cell at most one answer – one 64-bit pattern, or
+    "out of range" – is certified. (The acceptance windows of neighbouring doubles meet only in their common
+    midpoint, where only the even one accepts; the midpoints increase strictly along the bit patterns, across
+    subnormals and binade edges: `Float.H_strictMono`, `Float.lo_identity`, `Float.window_unique`.) So "the
+    correctly rounded binary64 value of the cell" is a function of the cell, and what the implementation
+    returns is compared with *it*. -/
+theorem C01_float_unique (cell : Str) (o1 o2 : Option Nat)
+    (h1 : ∀ b, o1 = some b → b < 2 ^ 64) (h2 : ∀ b, o2 = some b → b < 2 ^ 64)
+    (c1 : Float.certify cell o1 = some true) (c2 : Float.certify cell o2 = some true) : o1 = o2 :=
+  Float.certify_unique cell o1 o2 h1 h2 c1 c2
 
 /-- sign, biased exponent and significand – what the certificate looks at – determine all 64 bits -/
 theorem C01_float_bits_determined (b1 b2 : Nat) (h1 : b1 < 2 ^ 64) (h2 : b2 < 2 ^ 64) (v : Float.Bin)
